@@ -90,6 +90,10 @@ fn replay_rerun(id: &str, doc: &Value) -> Option<String> {
                 o.violations.first().map(|v| v.class.clone())
             }
         }
+        Err(crate::isolate::ChildFailure::Panic { in_repo: false, location, message }) => {
+            eprintln!("HARNESS-ERROR: panic in the harness at {}: {}", location, message);
+            None
+        }
         Err(fail) => Some(format!("run's process died: {}", fail.describe())),
     }
 }
